@@ -425,6 +425,15 @@ func checkPESEncode(c *mon.Ctx, stage string, idx int64, r *rand.Rand, flags, ex
 	if gen.IsNoHeaderID(model.StreamID) {
 		model.OptionalHeader = nil
 	}
+	if idx%2 == 1 {
+		// the struct fields a parser fills in as a by-product (lengths) hold whatever the unit had where it came from: a remultiplexer
+		// hands such headers to WriteData. What is written is determined by the content, not by these fields
+		h.PacketLength = uint16(r.UintN(1 << 16))
+		if h.OptionalHeader != nil {
+			h.OptionalHeader.HeaderLength = uint8(r.UintN(256))
+		}
+		c.Count("headers_written_with_stale_length_fields")
+	}
 	enc := refts.PESEnc{LengthZero: h.StreamID == 0xE0 || h.StreamID == 0xFD}
 	want, err := refts.EncodePES(model, data, enc, nil)
 	if err != nil {
